@@ -133,9 +133,20 @@ func New(root string) (*OS, error) {
 	return &OS{Root: root, files: map[*os.File]*openFile{}, inoOf: map[string]int{}, dead: map[int]bool{}, mtimes: map[int]time.Time{}}, nil
 }
 
+// OnInstall, if set, runs when an OS is installed (with its root) and returns what Uninstall must
+// undo: the harness packages point dolt's movable-temp-file provider at a directory inside the
+// simulated root, as production does (a temp directory from which a rename into the database
+// directory works), so that the rename-into-place paths run and not their cross-device fallbacks.
+var OnInstall func(root string) func()
+
+var onUninstall func()
+
 // Install makes o the simulated OS for the process. Only one OS is active at a time.
 func (o *OS) Install() {
 	active = o
+	if OnInstall != nil {
+		onUninstall = OnInstall(o.Root)
+	}
 	os.Sim = &os.SimHooks{
 		OpenFile: o.openFile, Read: o.read, ReadAt: o.readAt, Write: o.write, WriteAt: o.writeAt,
 		Close: o.close, Sync: o.sync, FTruncate: o.ftruncate, Truncate: o.truncate, Rename: o.rename,
@@ -164,7 +175,15 @@ func (o *OS) flock(fd int, how int, real func(int, int) error) error {
 }
 
 // Uninstall removes the hooks.
-func Uninstall() { os.Sim = nil; syscall.DsimFlock = nil; active = nil }
+func Uninstall() {
+	os.Sim = nil
+	syscall.DsimFlock = nil
+	active = nil
+	if onUninstall != nil {
+		onUninstall()
+		onUninstall = nil
+	}
+}
 
 // SetActor names the actor ("process") on whose behalf subsequent operations run.
 func (o *OS) SetActor(a int) { o.mu.Lock(); o.cur = a; o.mu.Unlock() }
